@@ -262,7 +262,7 @@ def run_spellings(ctx):
             ctx.oracle_fail("spelling-differs-from-boolean:allow_unsolicited-spelled=%s:class=%s:irt=%s:scd=%s" % (sp, c["cls"], c["irt"], c["scd"]),
                             "the same response is %s by an SP configured with allow_unsolicited %s and %s with %s"
                             % ("accepted" if acc else "refused", sp, "accepted" if seen[(twin, mk)][0] else "refused", twin), c)
-    ctx.correspond("sp_option_spellings", O_IMPORTS, "show_accept_spelled", "(scfg * response)", cases, shard=250)
+    ctx.correspond("sp_option_spellings", O_IMPORTS, "show_accept_spelled", "(scfg * response)", cases, shard=110)
 
     # (c) histories: a FRESH SP object per spelling and class, solicited / unsolicited calls alternate
     cases = []
